@@ -39,6 +39,10 @@ type c18Op struct {
 	// FailAt (reader, Doc != nil): the reader hands out FailAt permille of the (well-formed) text and then reports an
 	// I/O error: bad input, like a malformed text
 	FailAt *int `json:"failAt,omitempty"`
+	// NameOf (add, reader): the name passed is the one the set itself reports for its (NameOf mod n)-th layer at
+	// that moment (AsOne().LayerNames(), n > 0; Name otherwise) - the way a caller addresses a document it did not
+	// name itself, e.g. to tag an unnamed document afterwards, to replace it, or to insist on creating it
+	NameOf *int `json:"nameOf,omitempty"`
 }
 
 type c18Case struct {
@@ -53,11 +57,11 @@ type c18Merge struct {
 
 func init() {
 	register(&Prop{ID: "C18", Run: c18Run,
-		Rule: "histories of AddDocument / AddUnnamedDocument / AddDocumentFromReader / AddDocumentFromFile (<= 30 adds quick, <= 200 thorough) over a name pool of 5 (so re-adds occur), tag pool {t1,t2,t3,*,\"\"}, options none / WithTags / MergeTags / MustCreate (WithTags combined with a policy as the API is used), malformed reader text and missing files; two in five re-adds of a registered name carry content EQUAL to the stored one (the same reader / file text loaded again, an equal document built separately, a Clone() of the served document), half of them with no option at all, the others with MergeTags, MustCreate or generated options; after every add: TaggedSubset for 4 tag sets, AsOne, NamedDocument for every pool name and an unknown one. Every document carries a unique id so a stale document is visible; for equal content the served INSTANCE is compared by identity with the one handed to the registering call (after every step, for every registered name). Kind `combo` (model comparison and no-panic only) also mixes MergeTags+MustCreate on one call and explicit names of the form default__N. Kind `mergefiles` runs the pipeline template function mergeFiles over generated files. One add in eight registers the very INSTANCE already served under some name (another name or its own); one reader add in seven reads a well-formed text through a reader that reports an I/O error part-way (bad input: an error, nothing registered); every TaggedSubset query is asked twice and with its tags reversed. Kind `bigdocs` (direct predicates only): one document whose YAML / JSON text has an exact size just under / at / just over 512 B, 4 KiB, 64 KiB, 1 MiB (bulk: one long string, many keys, a long list; multi-byte characters across the threshold offset), registered through AddDocumentFromReader (whole / chunked / data+EOF reader, after readers failing part-way), AddDocumentFromFile and AddDocument(FromMap) between two small documents: every view serves the generated document under all three names and the three are Equal. VALUE RANGE (c18_names.go): half of the histories draw their five names - and, independently, half draw their five tags ('*' always among them) - from families of confusable spellings: path-like names differing in doubled / trailing separators, './' prefixes, '.' and '..' segments; letter-case twins; leading / trailing / inner white space (space, tab, NBSP, line break); Unicode composition twins, supplementary-plane characters, U+FFFD; characters that look like syntax; digit strings around 2^63 / 2^64; boolean / null spellings; the empty string (a name like any other); prefixes of each other; near misses of default__N. Two names (tags) are the same exactly when they are the same string: every clause is evaluated with string identity, NamedDocument is also asked for up to three further members of the same families that were never registered (nil), TaggedSubset for never-given sibling tags. One document in seven is EMPTY (no keys at all, through every entry point: a document like any other - registered, served, kept by must-create / merge-tags), one in fourteen holds only an empty-but-present value (empty container / empty list / \"\" / null); string leaves include white-space, case and digit-string variants. A history is non-trivial when it re-adds at least one name; distinct = distinct canonical case JSON.",
+		Rule: "histories of AddDocument / AddUnnamedDocument / AddDocumentFromReader / AddDocumentFromFile (<= 30 adds quick, <= 200 thorough) over a name pool of 5 (so re-adds occur), tag pool {t1,t2,t3,*,\"\"}, options none / WithTags / MergeTags / MustCreate (WithTags combined with a policy as the API is used), malformed reader text and missing files; two in five re-adds of a registered name carry content EQUAL to the stored one (the same reader / file text loaded again, an equal document built separately, a Clone() of the served document), half of them with no option at all, the others with MergeTags, MustCreate or generated options; after every add: TaggedSubset for 4 tag sets, AsOne, NamedDocument for every pool name and an unknown one. Every document carries a unique id so a stale document is visible; for equal content the served INSTANCE is compared by identity with the one handed to the registering call (after every step, for every registered name). Kind `combo` (model comparison and no-panic only) also mixes MergeTags+MustCreate on one call and explicit names of the form default__N. Kind `mergefiles` runs the pipeline template function mergeFiles over generated files. One add in eight registers the very INSTANCE already served under some name (another name or its own); one add / reader add in six takes its name from the set itself (the name LayerNames() reports for some registered layer at that moment, generated names of unnamed documents included: tagging an unnamed document afterwards with MergeTags, replacing it, MustCreate on it - a re-add like any other, and later unnamed documents still get fresh names); one reader add in seven reads a well-formed text through a reader that reports an I/O error part-way (bad input: an error, nothing registered); every TaggedSubset query is asked twice and with its tags reversed. Kind `bigdocs` (direct predicates only): one document whose YAML / JSON text has an exact size just under / at / just over 512 B, 4 KiB, 64 KiB, 1 MiB (bulk: one long string, many keys, a long list; multi-byte characters across the threshold offset), registered through AddDocumentFromReader (whole / chunked / data+EOF reader, after readers failing part-way), AddDocumentFromFile and AddDocument(FromMap) between two small documents: every view serves the generated document under all three names and the three are Equal. VALUE RANGE (c18_names.go): half of the histories draw their five names - and, independently, half draw their five tags ('*' always among them) - from families of confusable spellings: path-like names differing in doubled / trailing separators, './' prefixes, '.' and '..' segments; letter-case twins; leading / trailing / inner white space (space, tab, NBSP, line break); Unicode composition twins, supplementary-plane characters, U+FFFD; characters that look like syntax; digit strings around 2^63 / 2^64; boolean / null spellings; the empty string (a name like any other); prefixes of each other; near misses of default__N. Two names (tags) are the same exactly when they are the same string: every clause is evaluated with string identity, NamedDocument is also asked for up to three further members of the same families that were never registered (nil), TaggedSubset for never-given sibling tags. One document in seven is EMPTY (no keys at all, through every entry point: a document like any other - registered, served, kept by must-create / merge-tags), one in fourteen holds only an empty-but-present value (empty container / empty list / \"\" / null); string leaves include white-space, case and digit-string variants. A history is non-trivial when it re-adds at least one name; distinct = distinct canonical case JSON.",
 		Assumptions: []string{
 			"documents are non-nil containers with path-safe keys (no key ends in an index group)",
 			"the YAML/JSON decoding of reader/file documents is C01's concern: the expected document is what dom.Builder().FromReader yields on the same text",
-			"explicit names never have the form default__N in the property's domain (generated names are compared among themselves and with the names present)"}})
+			"explicit names have the form default__N only when they were read back from the set (LayerNames()) - re-adds of a name the set generated itself; a not yet registered name of that form is outside the property's domain (generated names are compared among themselves and with the names present)"}})
 	evals["C18"] = c18Eval
 	shrinkers["C18"] = c18Shrink
 }
@@ -231,8 +235,13 @@ func c18GenCase(r *rand.Rand, n int, combo bool) c18Case {
 				op.Same = ""
 			}
 		}
-		if op.FailAt != nil {
-			// nothing is registered by a failing reader
+		if (op.K == "add" || op.K == "reader") && op.Same == "" && i > 0 && r.Intn(6) == 0 {
+			// re-add under a name read back from the set (any registered layer, generated names included)
+			k := r.Intn(i)
+			op.NameOf = &k
+		}
+		if op.FailAt != nil || op.NameOf != nil {
+			// nothing is registered by a failing reader; a name read back from the set is not known here
 		} else if op.K != "unnamed" && (op.Doc != nil || op.K == "add") {
 			pol := ""
 			for _, o := range op.Opts {
@@ -534,6 +543,19 @@ func c18Eval(c *Ctx, kind string, raw []byte) {
 					panic(err)
 				}
 			}
+		}
+		if op.NameOf != nil && (op.K == "add" || op.K == "reader") {
+			guard(func() {
+				if ns := ds.AsOne().LayerNames(); len(ns) > 0 && *op.NameOf >= 0 {
+					name = ns[*op.NameOf%len(ns)]
+					c.Dist("name-read-back-from-LayerNames")
+					for _, g := range generated {
+						if g == strip(name) {
+							c.Dist("name-read-back-from-LayerNames:a-generated-name")
+						}
+					}
+				}
+			})
 		}
 		// ---- execute
 		var err error
